@@ -590,9 +590,10 @@ impl Real {
             ["c08", us, op, rest @ ..] => {
                 // tamper with the serialised form of an issued user key, then ask the real `refresh_usk`
                 // (on copies of the master key, with both flags) whether it accepts the result
+                self.model_line = Some("noop".into());
                 let Some(i) = handle('U', us) else { return "bad-op".into() };
-                let Some(Some(u)) = self.usks.get(i) else { return "err NoSuchHandle".into() };
-                let Some(Some(m)) = self.msks.first() else { return "err NoSuchHandle".into() };
+                let Some(Some(u)) = self.usks.get(i) else { return "bad-op".into() };
+                let Some(Some(m)) = self.msks.first() else { return "bad-op".into() };
                 let issued = u.serialize().unwrap().to_vec();
                 let mut w = WUsk::read(&issued).expect("harness cannot parse USK bytes");
                 let num = |k: usize| -> Option<usize> { rest.get(k).and_then(|s| s.parse::<usize>().ok()) };
@@ -611,6 +612,14 @@ impl Real {
                     "move_secret" => num(0).zip(num(1)).map(|(a, b)| {
                         // move the oldest secret of chain a to the end of chain b
                         if a < n && b < n && a != b && w.secrets[a].1.len() >= 1 { let k = w.secrets[a].1.pop().unwrap(); w.secrets[b].1.push(k); if w.secrets[a].1.is_empty() { w.secrets.remove(a); } true } else { false }
+                    }).unwrap_or(false),
+                    "split_chain" => num(0).map(|a| {
+                        // one chain (R,[s1,s2,..]) becomes two chains with the same right name: (R,[s1]), (R,[s2,..])
+                        if a < n && w.secrets[a].1.len() >= 2 { let (r, c) = w.secrets[a].clone(); w.secrets[a].1.truncate(1); w.secrets.insert(a + 1, (r, c[1..].to_vec())); true } else { false }
+                    }).unwrap_or(false),
+                    "join_chains" => num(0).map(|a| {
+                        // two neighbouring chains merged under the name of the first
+                        if a + 1 < n { let (_, c2) = w.secrets.remove(a + 1); w.secrets[a].1.extend(c2); true } else { false }
                     }).unwrap_or(false),
                     "swap_secrets" => num(0).map(|a| { if a < n && w.secrets[a].1.len() >= 2 { w.secrets[a].1.swap(0, 1); true } else { false } }).unwrap_or(false),
                     "drop_secret" => num(0).map(|a| { if a < n && w.secrets[a].1.len() >= 2 { w.secrets[a].1.pop(); true } else { false } }).unwrap_or(false),
